@@ -60,10 +60,24 @@ def hostile_resp(draw) -> Dict[str, Any]:
             'ttl': draw(st.sampled_from([4500, 4500, 120, 1])), 'type_own': draw(st.sampled_from([False, False, True]))}
 
 
+# degenerate but well-formed names: one or two labels, the root, protocol / '_sub' / 'local' labels out of place - shapes the
+# browser's type matching, the registry lookups and the service-name helpers are handed when such a name owns a record or is asked for
+SHORT_NAMES = [[], ['_x'], ['_tcp'], ['local'], ['x'], ['_sub', 'local'], ['_x', '_sub'], ['_tcp', 'local'], ['_x', '_tcp'],
+               ['_sub', '_b', '_tcp', 'local'], ['_services', '_dns-sd', '_udp', 'local'], ['_a', '_b', '_c', '_d', '_e', 'local'],
+               ['_udp'], ['_x', 'local'], ['a', 'b'], ['_', '_', '_']]
+
+
+@st.composite
+def short_name_msg(draw) -> Dict[str, Any]:
+    return {'src': 'short', 'names': draw(st.lists(st.integers(0, len(SHORT_NAMES) - 1), min_size=1, max_size=3)),
+            'rtype': draw(st.sampled_from([12, 12, 33, 16, 1, 47, 13])), 'query': draw(st.sampled_from([False, False, True])),
+            'with_announcement': draw(st.booleans()), 'ttl': draw(st.sampled_from([4500, 120, 0]))}
+
+
 @st.composite
 def item(draw) -> Dict[str, Any]:
     d = draw(st.one_of(c02.msg_case(True), c02.msg_case(True), c02.msg_case(False), c02.graph_case(), hostile_query(), hostile_query(),
-                       valid_query, valid_resp, valid_resp, hostile_resp(),
+                       valid_query, valid_resp, valid_resp, hostile_resp(), short_name_msg(),
                        st.builds(lambda n, s: {'src': 'rand', 'len': n, 'seed': s, 'hdr': 'sane'}, st.integers(0, 300), st.integers(0, 2**32))))
     # gaps include hours: timers armed by earlier datagrams (refresh schedules, purges, queues) must survive too
     return {'d': d, 'gap': draw(st.sampled_from([0, 0, 1, 50, 500, 1100, 5000, 5000, 850000, 1130000, 3400000, 4600000])), 'port': draw(st.sampled_from([5353, 5353, 40001, 1])),
@@ -123,6 +137,18 @@ def build(d: Dict[str, Any]) -> bytes:
         else:
             rr(odd + [('l', b'local'), ('end',)], 1, min(d['ttl'], 120), [bytes([10, 0, 0, 9])]); n += 1
         return body.finish(0, 0x8400, (0, n, 0, 0))
+    if src == 'short':
+        names = [[x.encode() for x in SHORT_NAMES[i]] for i in d['names']]
+        if d['query']:
+            return wire.encode({'id': 0, 'flags': 0, 'qd': [{'name': nm, 'type': d['rtype'], 'cls': 1} for nm in names],
+                                'an': [], 'ns': [], 'ar': []})
+        inst = wire.labels_of('peer3.' + TYPE_B)
+        rd = {12: {'target': inst}, 33: {'prio': 0, 'weight': 0, 'port': 9, 'target': wire.labels_of('peerhost.local.')},
+              16: {'txt': b'\x00'}, 1: {'addr': bytes([10, 0, 0, 9])}, 47: {'next': inst, 'types': [1]}, 13: {'cpu': b'c', 'os': b'o'}}[d['rtype']]
+        rrs = [{'name': nm, 'type': d['rtype'], 'cls': 1, 'ttl': d['ttl'], 'rd': rd} for nm in names]
+        if d['with_announcement']:
+            rrs.append(rp.wire_rr_of_ident(('PTR', TYPE_B, 'peer3.' + TYPE_B), 4500))
+        return wire.encode({'id': 0, 'flags': 0x8400, 'qd': [], 'an': rrs, 'ns': [], 'ar': []})
     if src == 'vresp':
         name = f'peer{d["inst"]}.{TYPE_B}'
         rrs = [rp.wire_rr_of_ident(('PTR', TYPE_B, name), d['ttl']),
